@@ -102,6 +102,11 @@ def detect(mid, checks, tier, seed):
         print("patch does not apply to /repo:", o)
         sys.exit(2)
     results = {}
+    # evidence files describe the unchanged tree: keep them out of reach of runs on a patched tree
+    saved = {}
+    for c in checks:
+        ev = os.path.join(VERIF, "evidence", c + ".json")
+        saved[ev] = open(ev).read() if os.path.exists(ev) else None
     try:
         for c in checks:
             t0 = time.time()
@@ -119,6 +124,12 @@ def detect(mid, checks, tier, seed):
             print(c, json.dumps(results[c]))
     finally:
         sh(["git", "checkout", "--", "."], cwd=REPO)
+        for ev, content in saved.items():
+            if content is None:
+                if os.path.exists(ev):
+                    os.remove(ev)
+            else:
+                open(ev, "w").write(content)
     meta_path = os.path.join(dst, "meta.json")
     meta = json.load(open(meta_path)) if os.path.exists(meta_path) else {}
     det = meta.setdefault("detection", {})
